@@ -21,6 +21,9 @@ CHECKS = {
             "FailureReported, LoggerWaitedFor, NoNoticeForNotices checked by TLC for every readiness schedule in the bound; the harness makes select report exactly the chosen writable set and makes chosen writes fail on the real manager; TLC validates notice content, recipients and that the others still got the message.", "DESIGN.md 3/C14", HUB_NOTE),
     "C19": ("model_checking", "TLC model checking of the four ACK clauses (Routing, Identity) + replay + trace validation of ACK frames on every connection incl. loggers",
             "AckExactlyOnce / AckAddressed / AckCopiedToLoggers / NoAckOtherwise / ConnectAck are action properties checked by TLC over all control/data sequences and service orders in the bound; on the real manager the ACK frames parsed from each connection must match a specification outcome at every step.", "DESIGN.md 3/C19", HUB_NOTE),
+    "C02": ("model_checking", "TLC model checking of ClientSys.tla (client set algebra composed with Manager.tla's ServiceOp) + TLC-generated API call sequences executed on a real Client against the real manager + TLC trace validation of reported sets and probe deliveries",
+            "SubsAgree, PausedNotDelivered, RefusedWhileAll, CtxRestores are invariants checked by TLC for every call sequence (all argument shapes up to length 2, bulk variants, both contexts, nesting) within the bound; on the real code every call is followed by reading subscribed_types / paused_subscribed_types and by one probe publish per type of the universe whose arrival on the client's socket is the manager-side truth; TLC evaluates the clauses at every step.", "DESIGN.md 3/C02",
+            "Trusted base: TLC, ClientSys.tla/Manager.tla, vio, vf/clientdrv.py (the harness empties the client's socket after each probe). Bounded universe: 3 types + 1 outside + ALL."),
     "C03": ("model_checking", "TLC model checking of ProbeServed under hostile frame classes (family Hostile) and of simultaneous failures (Failures) + every hostile input class executed on the real manager with a liveness/probe oracle + trace validation of fault schedules",
             "On the spec TLC shows that no sequence of hostile frames (answered by close-or-ignore), cuts, resets and deaths reaches a state in which a fresh publisher/subscriber pair is not served or a bystander is closed. On the code each header-field boundary, type id class, declared length, control payload (incl. non-ASCII names, also with the manager's logging enabled), FIN/RST at byte offsets, random bytes, and several hundred connections is applied to the real manager; after each the manager thread must be alive, bystanders open and a fresh probe pair served.", "DESIGN.md 3/C03", HUB_NOTE),
     "C18": ("model_checking", "TLC model checking of TimingExact / TrafficPartition with history variables (family Stats, TrafficChunk=2) + interval matrix (0..300 distinct types, out-of-range ids, interval sequences) on the real manager under a virtual clock + trace validation",
